@@ -41,7 +41,9 @@ def check_C11(tier, seed):
         rule="every open-finding request once (1 worker in memory or 2 workers on disk), plus random scenarios: 1-3 workers, memory/disk, 2-6 rounds of 1-3 "
              "concurrent requests drawn from 28 valid (incl. the repaired ones: OFFSET beyond the rows / without LIMIT, LIMIT 0, i64::MIN % -1, empty batches, short string "
              "columns, mixed columns), 32 failing (bad SQL, LIMIT 1.5, empty text, type errors, overflow, division by zero, unsupported features) and - in 1 scenario of 5, at "
-             "most one per scenario - 5 requests of the open findings F27, F32, F23, F2; after every round a canary ingestion, force_flush, query and table_stats; the extracted model is fed the observed "
+             "most one per scenario - 5 requests of the open findings F27, F32, F23, F2; pinned: SUM over table `ov` (three partitions 2^62, 2^61, 2^62: the overflow appears only in the "
+             "final cross-partition merge) with 1 and 3 workers, a 140 000-row / 69 000-distinct dictionary column compacted by force_flush, expressions nested 60 / 100 / 1000 / 30000 deep "
+             "(parentheses, unary minus, NOT, subqueries), and the F36 witness; a child process that dies is reported as c11:process-died; after every round a canary ingestion, force_flush, query and table_stats; the extracted model is fed the observed "
              "request outcomes and must reproduce every canary observation; non-trivial = every scenario; distinct by scenario hash")
 
 
